@@ -594,6 +594,7 @@ type c03Input struct {
 
 func runC03(ctx *Ctx) error {
 	ctx.EvalMod = "Eval_" + ctx.Prop
+	ctx.WideFactor = 3 // every history is replayed with reopen / crash injection: keep the widened search within minutes
 	ctx.CaseTy = "c03_case"
 	ctx.Shard = 40
 	ctx.HasKF = true
